@@ -159,4 +159,4 @@ def main():
 
 
 if __name__ == "__main__":
-    main()
+    O.run_main(main)
